@@ -436,7 +436,21 @@ func run(c *lib.Ctx, v *env, cs caseT) {
 		} else {
 			id = c.CaseNoModel(cs, nontriv())
 		}
-		compare(id, cs.E)
+		// the two-inequality spelling alone deviating, with the indexed column a in the join condition: RangeHeapJoin built
+		// over an index scan of that column loses the filters pushed to that side
+		onA := false
+		p1.Walk(func(n *x.Ex) {
+			if n.K == "col" && (n.N == "t1.a" || n.N == "t2.a") {
+				onA = true
+			}
+		})
+		if len(results) == 5 && onA && eqStr(results[0], results[1]) && eqStr(results[0], results[2]) && eqStr(results[0], results[3]) && !eqStr(results[0], results[4]) {
+			c.PredChecked()
+			c.PredFail(id, "on-where/equality-as-two-inequalities-on-indexed-column",
+				fmt.Sprintf("spellings differ: [%s] => %v  but  [%s] => %v  (t1 %s rows %s; t2 %s rows %s)", sqls[0], results[0], sqls[4], results[4], t1, rowsText(cs.T1), t2, rowsText(cs.T2)), cs)
+		} else {
+			compare(id, cs.E)
+		}
 	case "cte":
 		q, p := cs.E[0], cs.E[1]
 		body := "SELECT id, a, b, d, s, c FROM " + t1 + " WHERE " + q.SQL()
